@@ -72,6 +72,13 @@ func keysOf(m map[string]bool) []string {
 }
 
 func c19(c *Ctx) {
+	c.R.Rule("FRESH(allocated view): NodeAllocation.getAvailableCPUs hands out a copy of the allocated-CPU details on every return, never the record's own map (callers use it after the lock is released)")
+	freshResult(c, c.Fn(numaPkg, "NodeAllocation", "getAvailableCPUs"), 1, "the scheduling cycle reads the view after the node lock is released while informer events rewrite it, so the view no longer matches the available set returned with it")
+	c.R.Rule("EXCLUSIVE: ReservePod / UnreservePod test the pod's assigned flag and update used under one mutex held in write mode, not released in between (the pod informer handlers change the same state under its read mode)")
+	exclusiveCheckAct(c, c.Fn(quotaCorePkg, "GroupQuotaManager", "ReservePod"), "CheckPodIsAssigned", "updatePodUsedNoLock", "used keeps the request of a pod that was deleted in between, in the group and every ancestor")
+	exclusiveCheckAct(c, c.Fn(quotaCorePkg, "GroupQuotaManager", "UnreservePod"), "CheckPodIsAssigned", "updatePodUsedNoLock", "the request of a pod deleted in between is subtracted twice, in the group and every ancestor")
+	c.R.Rule("CREATE-ONCE: in a get-or-create of a per-key record, the lookup that finds the key absent and the store of the fresh record happen in one hold of the mutex the store runs under (no release of it in between)")
+	createOnce(c, c.Fn(numaPkg, "resourceManager", "getOrCreateNodeAllocation"), "the CPU set the first caller recorded lands in an orphaned node record: the CPUs of a live pod are reported free after a restart replay")
 	r := c.R
 	c19forward(c)
 	c19deviceUpdate(c)
